@@ -145,7 +145,9 @@ def part_form(case, rec):
             for i, (R, acc) in enumerate(zip(case["decl"][f[1]], f[2])):
                 vs = [v for _, v in acc]
                 if q in vs:
-                    if any(c < 1 for c, _ in acc) or (R != W and len(acc) != 1) or (R == W and len(acc) < 2):
+                    # the partitioned variable's own coefficient is a positive stride; the others may have either sign (a negative one
+                    # contributes to the pre-halo)
+                    if any(c < 1 for c, v in acc if v == q) or any(c == 0 for c, _ in acc) or (R != W and len(acc) != 1) or (R == W and len(acc) < 2):
                         return None
                     # form A (output-stationary): the lower level of an index-math follower resolves after Q0 (some other variable of the
                     # access is looped later); form B: it resolves AT Q0 (every other variable is looped before), the projection then
@@ -163,10 +165,12 @@ def part_form(case, rec):
     if modeB and (len(e["terms"]) != 1 or any(len(case["decl"][nm]) != 1 for nm, _ in followers)):
         return None          # the present partitions must not depend on outer coordinates (single term, one-rank followers)
     a = [c for t in e["terms"] for f in t["factors"] if f[0] == "t" for R, acc in zip(case["decl"][f[1]], f[2]) if R == W for c, v in acc if v == q][0]
+    pre = max(sum(-c * (case["ext"][v.upper()] - 1) for c, v in acc if c < 0)
+              for t in e["terms"] for f in t["factors"] if f[0] == "t" for R, acc in zip(case["decl"][f[1]], f[2]) if R == W)
     loop2, exts2 = [], []
     for r in lo:
         if r == Q + "1":
-            loop2.append(q + "1"); exts2.append(max(case["ext"][Q], (case["ext"][W] - 1) // a + 1))
+            loop2.append(q + "1"); exts2.append(max(case["ext"][Q], (case["ext"][W] - 1 + pre) // a + 1))
         elif r == Q + "0":
             loop2.append(q + "0"); exts2.append(case["ext"][Q])
         elif r.lower() in ivars:
